@@ -48,6 +48,10 @@ pub struct Step {
     /// the new version is LOWER than the current one (a dependency re-based / swapped)
     #[serde(default)]
     pub down: bool,
+    /// index-closure families: this step's call is interrupted - the closure answers with a wrong index at its
+    /// k-th evaluation, the call returns an error and whatever it pushed so far stays buffered
+    #[serde(default)]
+    pub interrupt: Option<u8>,
 }
 
 #[derive(Clone, Debug, Serialize, Deserialize)]
@@ -129,6 +133,13 @@ where
     let mut out: EagerVec<E> = EagerVec::forced_import(&db, "out", own).map_err(|e| format!("import result: {e}"))?;
     let mut to_version = 1u32;
     let fam = case.fam;
+    let fail_at: std::cell::Cell<Option<usize>> = std::cell::Cell::new(None);
+    let evals = std::cell::Cell::new(0usize);
+    let wrong = |i: usize| -> bool {
+        let n = evals.get();
+        evals.set(n + 1);
+        fail_at.get() == Some(n) && { let _ = i; true }
+    };
     // the call under test; closures log every index they are asked to evaluate
     let call = |out: &mut EagerVec<E>, s1: &Src, s2: &Src, s3: &Src, mf: usize, to_version: u32| -> vecdb::Result<()> {
         match fam {
@@ -137,6 +148,9 @@ where
                 s1.m.len(),
                 Version::new(to_version),
                 |i| {
+                    if wrong(i) {
+                        return (i + 1, 0);
+                    }
                     log(i);
                     (i, (i as u64) * 1000 + to_version as u64)
                 },
@@ -146,6 +160,9 @@ where
                 mf,
                 s1.v(),
                 |(i, v, ..)| {
+                    if wrong(i) {
+                        return (i + 1, 0);
+                    }
                     log(i);
                     (i, v * 3 + 1)
                 },
@@ -156,6 +173,9 @@ where
                 s1.v(),
                 s2.v(),
                 |(i, a, b, ..)| {
+                    if wrong(i) {
+                        return (i + 1, 0);
+                    }
                     log(i);
                     (i, a * 2 + b)
                 },
@@ -257,6 +277,33 @@ where
             BatchSel::K3 => Some(3 * sz),
             BatchSel::K17 => Some(17 * sz),
         });
+        if let Some(k) = st.interrupt
+            && matches!(fam, Fam::To | Fam::Transform | Fam::Transform2)
+        {
+            // an interrupted call: it may validate the version (and reset) and push some results, then fails.
+            // Nothing is asserted about it; the following steps see whatever it left in the buffer.
+            fail_at.set(Some(k as usize));
+            evals.set(0);
+            let r = catch_panic(|| call(&mut out, &s1, &s2, &s3, mf, to_version));
+            let triggered = evals.get() > k as usize;
+            fail_at.set(None);
+            rawdb::verif::set_max_cache_size(None);
+            match r {
+                Ok(Ok(())) if triggered => {
+                    // the wrong index was accepted: the contents are no longer defined by the formula
+                    obs.label("interrupt:wrong-index-accepted(history ends)");
+                    return Ok(());
+                }
+                Ok(Ok(())) => {} // fewer evaluations than k: an ordinary call whose result the next step inspects
+                _ => {
+                    obs.label("interrupted-compute");
+                    if out.stored_len() == 0 && out.len() > 0 {
+                        obs.label("interrupted-compute-left-unstored-results");
+                    }
+                }
+            }
+            continue;
+        }
         let r = catch_panic(|| call(&mut out, &s1, &s2, &s3, mf, to_version));
         rawdb::verif::set_max_cache_size(None);
         match r {
@@ -407,8 +454,9 @@ impl Prop for P {
             prop::bool::weighted(0.3),
             prop::bool::weighted(0.25),
             prop::bool::weighted(0.35),
+            prop_oneof![6 => Just(None), 1 => (0u8..12).prop_map(Some)],
         )
-            .prop_map(|(bump, bump_own, grow, max_from, batch, reimport, bump_leaves_empty, drop_without_flush, down)| Step { bump, bump_own, grow, max_from, batch, reimport, bump_leaves_empty, drop_without_flush, down });
+            .prop_map(|(bump, bump_own, grow, max_from, batch, reimport, bump_leaves_empty, drop_without_flush, down, interrupt)| Step { bump, bump_own, grow, max_from, batch, reimport, bump_leaves_empty, drop_without_flush, down, interrupt });
         (fam, any::<bool>(), any::<u64>(), 0u8..40, prop::collection::vec(step, 2..=n))
             .prop_map(|(fam, pco, seed, initial, steps)| Case { fam, pco, seed, initial, steps })
             .boxed()
@@ -419,11 +467,11 @@ impl Prop for P {
     }
 
     fn rule() -> String {
-        "sequences of compute calls for one representative per compute family (compute_to with an explicit version, compute_transform, compute_transform2, compute_cumulative_transformed_binary, compute_add, compute_cumulative, compute_sum, compute_max, compute_sum_of_others, compute_multiply) on an EagerVec over raw or Pco storage. Between calls: sources are re-imported under a NEW version (forced import; their data is replaced by data that differs at every index), the explicit version changes (compute_to), sources grow; the caller passes a starting index as if nothing below the stored length had changed (at / below it, a fraction, 0); batch limit 1/3/17/default; optional flush + re-import of the result. Closures log every index they evaluate. Oracle: combined version changed => the result equals the from-scratch result under the new inputs at every index (an element equal to the value stored under the old version is reported as mixing) and the closure was evaluated for exactly 0..len; version unchanged => no index below min(starting index, stored length) is evaluated and those elements are bit-identical, result equals from scratch; header().computed_version() == own version + dependency versions after every call and after flush + re-import. Non-trivial: a history with a version change on a non-empty result AND an unchanged-version resume.".into()
+        "sequences of compute calls for one representative per compute family (compute_to with an explicit version, compute_transform, compute_transform2, compute_cumulative_transformed_binary, compute_add, compute_cumulative, compute_sum, compute_max, compute_sum_of_others, compute_multiply) on an EagerVec over raw or Pco storage. Between calls: sources are re-imported under a NEW version (forced import; their data is replaced by data that differs at every index), the explicit version changes (compute_to), sources grow; the caller passes a starting index as if nothing below the stored length had changed (at / below it, a fraction, 0); batch limit 1/3/17/default; optional flush + re-import of the result; for the index-closure families 1 call in 7 is interrupted (the closure answers with a wrong index at its k-th evaluation: the call fails and what it pushed stays buffered, unstored). Closures log every index they evaluate. Oracle: combined version changed => the result equals the from-scratch result under the new inputs at every index (an element equal to the value stored under the old version is reported as mixing) and the closure was evaluated for exactly 0..len; version unchanged => no index below min(starting index, stored length) is evaluated and those elements are bit-identical, result equals from scratch; header().computed_version() == own version + dependency versions after every call and after flush + re-import. Non-trivial: a history with a version change on a non-empty result AND an unchanged-version resume.".into()
     }
 
     fn mandatory_labels() -> &'static [&'static str] {
-        &["version-changed-on-non-empty-result", "unchanged-version-resume", "reimported", "dropped-without-flush-and-imported", "version-went-down"]
+        &["version-changed-on-non-empty-result", "unchanged-version-resume", "reimported", "dropped-without-flush-and-imported", "version-went-down", "interrupted-compute-left-unstored-results"]
     }
 
     fn assumptions() -> Vec<String> {
